@@ -243,7 +243,8 @@ def main(argv=None):
 
     # ---- 4. verdict --------------------------------------------------------
     violations = []
-    os.makedirs(os.path.join(VERIF, "replays", prop), exist_ok=True)
+    OUT = os.environ.get("VERIF_OUT") or VERIF     # where evidence/ and replays/ go (self-tests use a scratch directory)
+    os.makedirs(os.path.join(OUT, "replays", prop), exist_ok=True)
     native_failures = (bounded or {}).get("failures", []) if bounded else []
     known_lines = []
     for kf in (bounded or {}).get("known_hits", []) if bounded else []:
@@ -272,14 +273,14 @@ def main(argv=None):
                 doc["native"] = {"fails": True, "detail": native_failures[0].get("detail"),
                                  "source": "bounded search"}
                 replayed = doc["native"]
-        with open(os.path.join(VERIF, rp), "w") as f:
+        with open(os.path.join(OUT, rp), "w") as f:
             json.dump(doc, f, indent=1, default=str)
         suffix = "" if (replayed and replayed.get("fails")) else " no-failing-input-found"
         violations.append("VIOLATION property=%s replay=%s%s" % (prop, rp, suffix))
     if not failed:
         for i, nf in enumerate(native_failures[:5]):
             rp = os.path.join("replays", prop, "bounded_%d.json" % i)
-            with open(os.path.join(VERIF, rp), "w") as f:
+            with open(os.path.join(OUT, rp), "w") as f:
                 json.dump({"property": prop, "obligation": "bounded:" + nf.get("oracle", "oracle"),
                            "input": nf["input"], "native": {"fails": True, "detail": nf.get("detail")},
                            "repo_head": _git_head()}, f, indent=1, default=str)
@@ -342,8 +343,8 @@ def main(argv=None):
         "known_findings": known_lines,
         "repo_head": _git_head(),
     }
-    os.makedirs(os.path.join(VERIF, "evidence"), exist_ok=True)
-    with open(os.path.join(VERIF, "evidence", prop + ".json"), "w") as f:
+    os.makedirs(os.path.join(OUT, "evidence"), exist_ok=True)
+    with open(os.path.join(OUT, "evidence", prop + ".json"), "w") as f:
         json.dump(ev, f, indent=1, default=str)
     print("%s tier=%s: %d obligations, %d discharged, %d refuted, %d undecided; %s; %.1fs; exit %d"
           % (prop, tier, len(proper), len(discharged), len(failed), len(unknown) + len(undecided),
